@@ -153,6 +153,28 @@ def runQueries (cfg : Config) (w : Internet) : List Query → St → List String
     let (st', res) := resolve cfg w.net q { st with log := [] }
     (showResult res ++ " " ++ showTrace w st'.log) :: runQueries cfg w qs st'
 
+/-- class, rcode, AA and records only -/
+def showShort (res : Except Err Response) : String := showResult res
+
+/-- the clients of a concurrent batch: each one's answer is the sequential model's answer from the
+state the warm-up left (the state is then threaded through the batch in order for the probes) -/
+def runBatch (cfg : Config) (w : Internet) (tag : String) (fork : Bool) : List Query → St → List String × St
+  | [], st => ([], st)
+  | q :: qs, st =>
+    let (st', res) := resolve cfg w.net q { st with log := [] }
+    let (rest, stEnd) := runBatch cfg w tag fork qs st'
+    ((tag ++ showShort res) :: rest, stEnd)
+
+def runForked (cfg : Config) (w : Internet) (st : St) (qs : List Query) : List String :=
+  qs.map fun q => "B:" ++ showShort (resolve cfg w.net q { st with log := [] }).2
+
+def runWarm (cfg : Config) (w : Internet) : List Query → St → List String × St
+  | [], st => ([], st)
+  | q :: qs, st =>
+    let (st', res) := resolve cfg w.net q { st with log := [] }
+    let (rest, stEnd) := runWarm cfg w qs st'
+    ((showResult res ++ " " ++ showTrace w st'.log) :: rest, stEnd)
+
 def handleRes (t : List String) : Option String :=
   match t with
   | [rl, nl, roots, denyS, allowS, denyA, allowA, names, groups, table, queries] => do
@@ -181,7 +203,7 @@ def handleRes (t : List String) : Option String :=
           pure ((g, n, ty), r)
         | _ => none
       | _ => none
-    let queries ← parseList queries ";" fun q => match q.splitOn "," with
+    let parseQs := fun (tok : String) => parseList tok ";" fun q => match q.splitOn "," with
       | [n, ty] => do
         let n ← n.toNat?
         let name ← names[n]?
@@ -192,7 +214,24 @@ def handleRes (t : List String) : Option String :=
       recursionLimit := rl, nsRecursionLimit := nl, roots,
       serverFilter := ⟨allowS, denyS⟩, answerFilter := ⟨allowA, denyA⟩ }
     let w : Internet := { names, groups := groups.toArray, table }
-    pure (" | ".intercalate (runQueries cfg w queries St.empty))
+    match queries.splitOn "|" with
+    | [qs] => do
+      let queries ← parseQs qs
+      pure (" | ".intercalate (runQueries cfg w queries St.empty))
+    | [wq, bq, pq] => do
+      let warm ← parseQs wq
+      let batch ← parseQs bq
+      let probes ← parseQs pq
+      let (wOut, st1) := runWarm cfg w warm St.empty
+      let bOut := runForked cfg w st1 batch
+      -- a client that gave up (class err / limit) leaves an interleaving-dependent partial cache
+      -- state: the probes then have no deterministic model side (the harness prints the same)
+      let unstable := bOut.any fun l => l.startsWith "B:err" || l.startsWith "B:limit"
+      let (_, st2) := runBatch cfg w "B:" false batch st1
+      let (pOut, _) := runBatch cfg w "P:" false probes st2
+      let pOut := if unstable then pOut.map (fun _ => "P:~") else pOut
+      pure (" | ".intercalate (wOut ++ bOut ++ pOut))
+    | _ => none
   | _ => none
 
 /-- `stub <names> <table> <query>` : alias chasing of the stub resolver -/
@@ -229,6 +268,7 @@ def handleStub (t : List String) : Option String :=
 def step (s : State) (toks : List String) : State × String :=
   match toks with
   | "res" :: rest => (s, (handleRes rest).getD "bad-op")
+  | "conc" :: rest => (s, (handleRes rest).getD "bad-op")
   | "stub" :: rest => (s, (handleStub rest).getD "bad-op")
   | _ => (s, "bad-op")
 
